@@ -3,6 +3,8 @@ from iauth_common import *
 PROFILE = dict(p_good_reply=0.6, timeouts=[0, 3600, 3600], maxlen=45)
 
 def run(chk):
+    _impl0, _ = build_impl()
+    _rt = start_realtime(_impl0) if _impl0 is not None else None
     r = standard_run(chk, PROFILE, 4000, 40000)
     if r is None: return
     drv, impl, scns, ms, ds = r
@@ -15,4 +17,5 @@ def run(chk):
                     "(required data missing, a query unanswered with no expired timeout, an unmet +! requirement, or a refusal)" % (i, step_label(scn, i), extra[0][1], extra[0][0]), True)
         return None
     analyse(chk, drv, impl, scns, ms, ds, project=lambda lines, n: kinds(lines, "DR"), judge=judge, what="premature acceptance: ", nontrivial=reached_verdict)
+    if _rt is not None: finish_realtime(chk, _rt, 'premature acceptance: ')
     chk.cov["rule"] = "histories = corpus of past failures + generated sessions (1-4 clients, 0-4 services of all four protocols, timeouts fired through the hook at arbitrary points, passwords before/after user info, +! with 0-2 login services, replies OK / 'OK ' / 'OK  x' / OK acct / NO / AGAIN / MORE / junk); distinct non-trivial = distinct output traces that reached at least one verdict"
